@@ -90,6 +90,8 @@ Builtin(f, args, consts) ==
                      ELSE IF A(1).e = <<>> THEN Null ELSE A(1).e[1]
    [] f = "last"  -> IF IsNull(A(1)) THEN Null ELSE IF ~IsArr(A(1)) THEN Err
                      ELSE IF A(1).e = <<>> THEN Null ELSE A(1).e[Len(A(1).e)]
+   \* (a fractional index is outside what the statement covers and is not enumerated: the code truncates it toward zero,
+   \* ELEMENTAT(arr, 1.5) = arr[1], ELEMENTAT(arr, -0.5) = arr[0]; this definition says Err for it)
    [] f = "elementat" ->
           IF IsNull(A(1)) THEN Null
           ELSE IF ~IsArr(A(1)) \/ ~IsIntegral(A(2)) THEN Err
